@@ -19,6 +19,7 @@ var libModels map[string]modelFn
 func init() {
 	libModels = map[string]modelFn{
 		"strings.Cut":        modelCut,
+		"bytes.Equal":        modelBytesEqual,
 		"strings.TrimLeft":   modelTrimLeft,
 		"strings.TrimRight":  modelTrimRight,
 		"strings.TrimSpace":  modelTrimSpace,
@@ -628,4 +629,15 @@ func modelBE64(f *Frame, st *State, cc *ssa.CallCommon, args []Val, rt types.Typ
 		parts = append(parts, fmt.Sprintf("(* %s %s)", at(i), mul[i]))
 	}
 	return Val{T: rt, S: e.define("be64", "Int", "(+ "+strings.Join(parts, " ")+")")}
+}
+
+// bytes.Equal: "reports whether a and b are the same length and contain the same bytes".
+func modelBytesEqual(f *Frame, st *State, cc *ssa.CallCommon, args []Val, rt types.Type, pos token.Pos) Val {
+	e := f.e
+	a, b := args[0].S, args[1].S
+	srt := e.sortOf(types.Typ[types.Uint8])
+	h := e.getHeapA(st, srt)
+	q := e.fresh("q.i")
+	return Val{T: rt, S: e.define("beq", "Bool", fmt.Sprintf("(and (= (s.len %s) (s.len %s)) (forall ((%s Int)) (=> (and (<= 0 %s) (< %s (s.len %s))) (= (select (select %s (s.arr %s)) (+ (s.off %s) %s)) (select (select %s (s.arr %s)) (+ (s.off %s) %s))))))",
+		a, b, q, q, q, a, h, a, a, q, h, b, b, q))}
 }
